@@ -519,21 +519,33 @@ func init() {
 		if mask >= 1<<(n-1) {
 			return false
 		}
+		return true
+	}
+	s.Reduce = func(v []int) bool {
+		sec := s.Val(v, "second")
+		n := 1
+		if sec != "none" {
+			n = 2 + len(c02Rest[s.Val(v, "rest")])
+		}
+		mask := v[s.idx("layout")]
+		if s.Val(v, "layout") == "m31" {
+			mask = 31
+		}
 		// the full cross of layout x status x names is reduced: non-default status / names only with the two extreme layouts
 		if (v[s.idx("status")] != 0 || v[s.idx("names")] != 0) && mask != 0 && mask != (1<<(n-1))-1 {
-			return false
+			return true
 		}
 		if v[s.idx("status")] != 0 && v[s.idx("names")] != 0 {
-			return false
+			return true
 		}
 		// configuration and body size are crossed with the routing entry (transport, host, port,
 		// received, rport, rest, top, arrival) but not with the cosmetic dimensions
 		if v[s.idx("config")] != 0 || v[s.idx("body")] != 0 {
 			if v[s.idx("status")] != 0 || v[s.idx("names")] != 0 || v[s.idx("extra")] != 0 || (mask != 0 && mask != (1<<(n-1))-1) {
-				return false
+				return true
 			}
 		}
-		return true
+		return false
 	}
 	addCheck(&Check{ID: "C02", Level: "model_checking",
 		Rule:   "(inputs) complete product: routing entry (transport x host literal/host-table name x port x received x rport {absent, valueless, numeric, non-numeric} x extra parameters, plus 6 undecodable / missing shapes) x top entry x 0-4 further entries x EVERY layout (all compositions into header lines, full/compact/mixed/upper-case names) x status class x arrival transport x configuration {default, no-received, must-record-route + keep-next-hop-route, two listens entries with opposite received settings} x body {none, 2000 bytes} (the last two crossed with the routing entry, not with the cosmetic dimensions), each on a fresh world, and a second pass feeding all cases of one class into ONE long-lived world; (histories) explicit-state BFS by replay over three concurrent transactions (UDP and TCP user agents, UDP and TCP backends): events {request t, backend answers t with 180 / 200 (repeatable)} in every order to depth 6 (thorough 8), received-support on/off; non-trivial = a Via entry remains after the pop / history longer than one event",
